@@ -17,6 +17,9 @@ var (
 const pkgAlpha = "abcdefghijklmnopqrstuvwxyz0123456789"
 
 func PkgName(r *core.Rand) string {
+	if r.Chance(1, 60) { // a token longer than any plausible fixed-size scratch buffer
+		return r.Str(pkgAlpha, 1) + r.Str(pkgAlpha+"+.-", r.Pick3(63, 64, 65, 70, 130, 300)) + r.Str(pkgAlpha, 1)
+	}
 	if r.Chance(2, 3) {
 		return r.Pick(pkgNames)
 	}
@@ -24,6 +27,9 @@ func PkgName(r *core.Rand) string {
 }
 
 func depVersion(r *core.Rand) string {
+	if r.Chance(1, 40) { // e.g. a version carrying a long commit id
+		return r.Str("123456789", 1) + "." + r.Str("0123456789abcdef", r.Pick3(62, 63, 64, 80, 200)) + "-1"
+	}
 	for {
 		v := Version(r)
 		if len(v.Text) <= 40 {
